@@ -214,7 +214,7 @@ def decide(prop, tier, seed):
         for un, f in failures:
             for pat, h in spec.get('twins', {}).items():
                 if re.search(pat, f.oid):
-                    cex_harness.setdefault(h, []).append(f.oid)
+                    cex_harness.setdefault(h, []).append(f'{un}::{f.oid}')
         want_kani += [h for h in cex_harness if h not in want_kani]
     if want_kani:
         from . import kani
